@@ -94,7 +94,7 @@ def jobs(tier, seed, prop):
     R = X.Rules()
     t, info = conformal.emit(R)
     cf = ContractFile("contracts/conformal.c")
-    nd, np_, npts, newton = (2, 2, 1, 1) if tier == "quick" else (3, 3, 2, 2)
+    nd, np_, npts, newton = (2, 2, 1, 1) if tier == "quick" else (2, 3, 1, 2)
     out = []
     for w, fn in enumerate(("mapConformalCanonicalToTransformed", "mapConformalTransformedToCanonical", "mapConformalWeights")):
         pre = '#include "tsg_shim.h"\nint tsg_exc;\n#define TSG_NDIM %d\n#define TSG_NP %d\n#define TSG_NPTS %d\n#define TSG_NEWTON %d\n#define TSG_WHICH %d\n' % (nd, np_, npts, newton, w)
